@@ -73,7 +73,10 @@ partial def step (as : AState) (fs : List String) (obs : String) : AState × Str
     let r := logout as.cfg as.st ck
     let abs' := Rv.Spec.Session.Abs.step as.cfg as.abs (.logout ck)
     let v := if obs.startsWith "reached" && !liveBefore then "bad:guarded-route-served-without-live-session"
-      else if obs.startsWith "401" && liveBefore then "bad:live-session-refused" else "ok"
+      else if obs.startsWith "401" && liveBefore then "bad:live-session-refused"
+      -- a successful logout ends the session: the store no longer holds it
+      else if liveBefore && !obs.startsWith "401" && (obs.splitOn ";sessions=").getLast? ≠ ((tail r.1).splitOn ";sessions=").getLast? then "bad:logout-left-the-session-alive"
+      else "ok"
     ({ as with st := r.1, abs := abs' }, outName r.2 ++ tail r.1, v)
   | ["au", "req", "POST", "/api/auth/logout", ref, "-", "-"] => step as ["au", "logout", ref] obs
   | ["au", "req", method, path, ref, origin, site] =>
